@@ -463,6 +463,28 @@ func (c *Ctx) splitPhiOperand(fn *ssa.Function, ws writeSite) []writeSite {
 		return []writeSite{ws}
 	}
 	pc := c.PC(fn)
+	// an operand computed by a conditional value helper: one site per alternative
+	for i, a := range ws.args {
+		call, ok := a.(*ssa.Call)
+		if !ok {
+			continue
+		}
+		alts, ok := pc.altsOfCall(call)
+		if !ok {
+			continue
+		}
+		var out []writeSite
+		for k, al := range alts {
+			ns := ws
+			ns.alt = k + 1
+			ns.cond = andDNF(ws.cond, dnf{cs: []conj{al.cond}})
+			ns.args = append([]ssa.Value{}, ws.args...)
+			ns.argT = append([]string{}, ws.argT...)
+			ns.argT[i] = al.term
+			out = append(out, ns)
+		}
+		return out
+	}
 	for i, a := range ws.args {
 		ph, ok := a.(*ssa.Phi)
 		if !ok || isLoopHeader(ph.Block()) || !ph.Block().Dominates(ws.call.Block()) {
